@@ -470,6 +470,12 @@ func (t *Transaction) Update(handle Handle, query, sort, update bsonkit.Doc, ski
 		return nil, fmt.Errorf("namespace local.* is read only")
 	}
 
+	// check update up front as it is not applied if the namespace is missing
+	err = mongokit.CheckUpdate(*update)
+	if err != nil {
+		return nil, err
+	}
+
 	// check namespace
 	if t.catalog.Namespaces[handle] == nil && !upsert {
 		return &Result{}, nil
